@@ -281,7 +281,7 @@ def compare(col, pid, prog, cfg, args, sites, ref, res, log, rp, clauses, only=N
     return bad
 
 
-def seq_overlap(col, prog, log, rp):
+def seq_overlap(col, prog, log, rp, pid=None):
     """C05 on generated programs, judged by the GENERATOR's knowledge of which decorated functions are is_sequential
     (the node objects tawazi rebuilt, e.g. when a DAG is expanded inside another one, are not trusted)."""
     fns = all_fns(prog)
@@ -302,8 +302,11 @@ def seq_overlap(col, prog, log, rp):
         col.counters["c05_sequential_probe_intervals"] += 1
         for (t2, n2, fn2, b0, b1) in ivs:
             if t2 == t and n2 != n and not (a1 < b0 or b1 < a0):
-                col.violation("C05", "sequential_function_overlapped_in_generated_program", dict(
-                    sequential=n, other=n2, seq_interval=(a0, a1), other_interval=(b0, b1), source="\n".join(G.all_sources(prog))), rp)
+                w = dict(sequential=n, other=n2, seq_interval=(a0, a1), other_interval=(b0, b1), source="\n".join(G.all_sources(prog)))
+                col.violation("C05", "sequential_function_overlapped_in_generated_program", w, rp)
+                if pid in ("C20", "C01") and "." in str(n):
+                    # inlining equivalence: a node of a nested DAG must keep the is_sequential behaviour it has in its own DAG
+                    col.violation(pid, "nested_dag_node_lost_its_is_sequential_behaviour", w, rp)
                 return
 
 
@@ -343,7 +346,7 @@ def one_program(col, pid, rng, feats, depth, pidx, reps=3, clauses=True, flavour
         col.evaluations += 1
         rp2 = dict(rp, args=jsonable(args), rep=rep, failing_function=failing)
         col.generic(log, rp2)
-        seq_overlap(col, prog, log, rp2)
+        seq_overlap(col, prog, log, rp2, pid=pid)
         if failing is not None and ref[0] == "exc" and isinstance(ref[1], probes.Injected):
             # the plain function raises because a decorated function raised: so must the DAG call, whatever the resource
             col.counters["plain_python_raises_cases"] += 1
